@@ -21,7 +21,8 @@ From Coq Require Import List NArith Bool Arith Lia.
 From Scion Require Import Lib.Check Lib.Bytes Model.Router Model.Network Model.Prov Model.RouterScmp
   Model.ScmpReturn.
 From Scion Require Import Proofs.ProvFacts Proofs.ForwardView Proofs.ForwardStep Proofs.ScmpReturnCong
-  Proofs.ScmpReturnStop Proofs.ScmpReturnMain Proofs.ScmpReturnOracle.
+  Proofs.ScmpReturnStop Proofs.ScmpReturnMain Proofs.ScmpReturnOracle Proofs.ScmpReturnAlert
+  Proofs.ScmpReturnTrace.
 Import ListNotations.
 Import Scion.Model.Router.Router Network Prov.
 Local Open Scope N_scope.
@@ -145,6 +146,115 @@ Theorem C10_oracle_holds_on_model :
 Proof. intros. eapply oracle_fault; eassumption. Qed.
 Print Assumptions C10_oracle_holds_on_model.
 
+(** TRACEROUTE.  [set_alerts kx a e q]: the packet [q] with the two router-alert bits of hop
+    field [kx] set to [a] (ConsIngress flag) and [e] (ConsEgress flag); [in_flag p k a e] /
+    [eg_flag p k a e]: the bit that stands for the interface through which hop [k] is
+    entered / left in the direction of travel.
+
+    (1) The flag of the interface through which hop [k] is entered: the router that
+    receives the packet from the previous AS over that interface raises the
+    router-alert request for the ingress interface, with the flag cleared — the packet it
+    hands to the slow path IS the packet of the path (so [C10_reply_path] and
+    [C10_reply_returns] apply to the answer). *)
+Theorem C10_traceroute_ingress : forall mac t now p pp q k r a e,
+  good mac t p -> endpoints_ok t p pp = true -> all_unexpired now p = true ->
+  view p pp (nhops p) (length (pv_segs p)) q k k false -> (k < nhops p)%nat ->
+  (1 <= k)%nat -> crosses p (k - 1) = true ->
+  in_flag p k a e = true -> eg_flag p k a e = false ->
+  process_scion (macq_of mac (a_key (as_of t p k))) (cfg_of (as_of t p k) r) now (InExt (tr_in p k))
+                (ScmpReturn.set_alerts k a e q) =
+  SlowPath SpAlertIngress 0 (render p pp k true).
+Proof. intros. now apply ingress_flag_answer. Qed.
+Print Assumptions C10_traceroute_ingress.
+
+(** (2) The flag of the interface through which the AS is left: the router that owns that
+    interface raises the request for the egress interface — the router that received the
+    packet if it owns it (also after a segment change) ... *)
+Theorem C10_traceroute_egress : forall mac t now p pp q k ing r a e,
+  good mac t p -> endpoints_ok t p pp = true -> all_unexpired now p = true ->
+  view p pp (nhops p) (length (pv_segs p)) q k k false -> (S k < nhops p)%nat -> arrives p k ing ->
+  (k = 0%nat -> r = eg_rtr t p (eff p k)) -> eg_rtr t p (eff p k) = r ->
+  eg_flag p (eff p k) a e = true -> in_flag p (eff p k) a e = false ->
+  process_scion (macq_of mac (a_key (as_of t p k))) (cfg_of (as_of t p k) r) now ing
+                (ScmpReturn.set_alerts (eff p k) a e q) =
+  SlowPath SpAlertEgress (tr_eg p (eff p k)) (render p pp (eff p k) true).
+Proof. intros. now apply egress_flag_answer. Qed.
+Print Assumptions C10_traceroute_egress.
+
+(** ... or its sibling, to which the receiving router forwards the packet with the flag
+    untouched ([C10_flag_untouched] below). *)
+Theorem C10_traceroute_egress_sibling : forall mac t now p pp q k k0 a e,
+  good mac t p -> endpoints_ok t p pp = true -> all_unexpired now p = true ->
+  view p pp (nhops p) (length (pv_segs p)) q k k true -> (S k < nhops p)%nat -> crosses p k = true ->
+  entry p k = k0 -> (1 <= k0)%nat -> crosses p (k0 - 1) = true -> as_of t p k0 = as_of t p k ->
+  in_rtr t p k0 <> eg_rtr t p k ->
+  eg_flag p k a e = true -> in_flag p k a e = false ->
+  process_scion (macq_of mac (a_key (as_of t p k))) (cfg_of (as_of t p k) (eg_rtr t p k)) now
+                (InSib (in_rtr t p k0 + 1)) (ScmpReturn.set_alerts k a e q) =
+  SlowPath SpAlertEgress (tr_eg p k) (render p pp k true).
+Proof. intros. now apply egress_flag_answer_sibling. Qed.
+Print Assumptions C10_traceroute_egress_sibling.
+
+(** (3) Every other router: a router that receives the flagged packet from the host or the
+    previous AS and is neither the router of (1) nor the owner of (2), the egress router of
+    an AS whose hop does not carry the egress flag, and the last router if the flag is
+    not the ingress flag of the last hop, do exactly what they do with the packet
+    without the flag — same disposition, same egress, and the packet they send is the
+    packet they would send with the flag bits of hop [kx] still as the sender set them
+    ([phi_res]/[gflag]: only hop field [kx]'s two flag bits differ). *)
+Theorem C10_flag_untouched : forall mac t now p pp q k ing r kx a e,
+  good mac t p -> endpoints_ok t p pp = true -> all_unexpired now p = true ->
+  view p pp (nhops p) (length (pv_segs p)) q k k false -> (S k < nhops p)%nat -> arrives p k ing ->
+  (k = 0%nat -> r = eg_rtr t p (eff p k)) ->
+  (k <> kx \/ in_flag p k a e = false \/ ing = InInt) ->
+  (eff p k <> kx \/ eg_flag p (eff p k) a e = false \/ eg_rtr t p (eff p k) <> r) ->
+  process_scion (macq_of mac (a_key (as_of t p k))) (cfg_of (as_of t p k) r) now ing
+                (ScmpReturn.set_alerts kx a e q) =
+  phi_res (p_src_ia q) (gflag kx a e)
+          (process_scion (macq_of mac (a_key (as_of t p k))) (cfg_of (as_of t p k) r) now ing q).
+Proof. intros. eapply flag_forward; eassumption. Qed.
+Print Assumptions C10_flag_untouched.
+
+Theorem C10_flag_untouched_sibling : forall mac t now p pp q k k0 kx a e,
+  good mac t p -> endpoints_ok t p pp = true -> all_unexpired now p = true ->
+  view p pp (nhops p) (length (pv_segs p)) q k k true -> (S k < nhops p)%nat -> crosses p k = true ->
+  entry p k = k0 -> (1 <= k0)%nat -> crosses p (k0 - 1) = true -> as_of t p k0 = as_of t p k ->
+  in_rtr t p k0 <> eg_rtr t p k ->
+  (k <> kx \/ eg_flag p k a e = false) ->
+  process_scion (macq_of mac (a_key (as_of t p k))) (cfg_of (as_of t p k) (eg_rtr t p k)) now
+                (InSib (in_rtr t p k0 + 1)) (ScmpReturn.set_alerts kx a e q) =
+  phi_res (p_src_ia q) (gflag kx a e)
+          (process_scion (macq_of mac (a_key (as_of t p k))) (cfg_of (as_of t p k) (eg_rtr t p k)) now
+                         (InSib (in_rtr t p k0 + 1)) q).
+Proof. intros. eapply flag_forward_sibling; eassumption. Qed.
+Print Assumptions C10_flag_untouched_sibling.
+
+Theorem C10_flag_untouched_last : forall mac t now p pp q k ing r kx a e,
+  good mac t p -> endpoints_ok t p pp = true -> all_unexpired now p = true ->
+  view p pp (nhops p) (length (pv_segs p)) q k k false -> S k = nhops p -> arrives p k ing ->
+  (k <> kx \/ in_flag p k a e = false) ->
+  process_scion (macq_of mac (a_key (as_of t p k))) (cfg_of (as_of t p k) r) now ing
+                (ScmpReturn.set_alerts kx a e q) =
+  phi_res (p_src_ia q) (gflag kx a e)
+          (process_scion (macq_of mac (a_key (as_of t p k))) (cfg_of (as_of t p k) r) now ing q).
+Proof. intros. eapply flag_deliver; eassumption. Qed.
+Print Assumptions C10_flag_untouched_last.
+
+(** (4) What the answer says: a traceroute reply (type 131, code 0) whose body is the first
+    four bytes of the request's body — identifier and sequence number, copied —, the
+    router's ISD-AS and the interface the request is about: the interface id of the link
+    the packet came in on for the ingress flag, the egress interface for the egress flag. *)
+Theorem C10_traceroute_reply : forall cmac c ing req eg x va ats r,
+  req = SpAlertIngress \/ req = SpAlertEgress ->
+  RouterScmp.slow_path cmac c ing req eg x va ats = RouterScmp.SReply r ->
+  exists ll t0 cd c1 c2 rest ck,
+    RouterScmp.last_layer (RouterScmp.sp_next x) (RouterScmp.payload x) = Some ll /\
+    snd ll = t0 :: cd :: c1 :: c2 :: rest /\
+    RouterScmp.r_l4 r = [RouterScmp.ScmpTracerouteReply; 0] ++ be 2 ck ++
+                        (firstn 4 rest ++ be 8 (c_ia c) ++ be 8 (alert_ifid req ing eg)).
+Proof. intros. eapply alert_reply_content; eassumption. Qed.
+Print Assumptions C10_traceroute_reply.
+
 (** * Examples: leaf 20 below core 10 (two routers, interface 1 on router 0, interface 2 on
     router 1), leaf 30 below core 10; path 20 -> 10 -> 30 (up segment, down segment). *)
 Definition toy (k s ts e i g : N) : list N := [k; s; ts; e; i; g].
@@ -226,9 +336,11 @@ Print Assumptions C10_expired_hop_refuted.
 
 (** The full statement for the oracle (every scenario of the check outside the known
     finding: interface faults, altered later hop fields, traceroute requests).  Proved
-    above for the interface faults ([C10_oracle_holds_on_model]); for altered hop
-    fields and traceroute requests the oracle is evaluated on every generated case
-    by the correspondence check only. *)
+    above for the interface faults ([C10_oracle_holds_on_model]).  For traceroute requests
+    the theorems above give every ingredient per router (who raises the request, in which
+    state, what the answer says, that it returns) but not the composition into this
+    statement about [model_q]; for altered hop fields the oracle is evaluated on every
+    generated case by the correspondence check only. *)
 Definition C10_oracle_statement : Prop :=
   forall mac t hosts now now' p pp pf fa tc flow next qoff ka kc how trq srt raw r pt,
   let macq := macq_of mac in
